@@ -21,6 +21,14 @@ pub struct Huff<B>(PhantomData<B>);
 impl<B: Val + Ord> Spec for Huff<B> {
     type V = Vec<B>;
     type R = HuffmanContainer<B>;
+    type M = ();
+    const MODELLED: bool = false;
+    fn m_push(_m: &mut (), _v: &Self::V) -> MIdx {
+        MIdx::Opaque
+    }
+    fn m_clear(_m: &mut ()) {}
+    fn m_merged(_s: &[&()]) {}
+    fn m_layout(_m: &(), _out: &mut Vec<Slot>) {}
     fn name() -> String {
         format!("HuffmanContainer<{}>", short_type::<B>())
     }
@@ -61,6 +69,14 @@ where
 {
     type V = Vec<u8>;
     type R = CodecRegion<DictionaryCodec, B::R>;
+    type M = ();
+    const MODELLED: bool = false;
+    fn m_push(_m: &mut (), _v: &Self::V) -> MIdx {
+        MIdx::Opaque
+    }
+    fn m_clear(_m: &mut ()) {}
+    fn m_merged(_s: &[&()]) {}
+    fn m_layout(_m: &(), _out: &mut Vec<Slot>) {}
     fn name() -> String {
         if B::name() == "OwnedRegion<u8>" {
             "CodecRegion<DictionaryCodec>".into()
@@ -284,7 +300,7 @@ pub fn visit_all<Vz: Visitor>(v: &mut Vz) {
         });
         let e = string_forms!(e, R);
         let e = string_rforms!(e, R);
-        v.visit(e.cloneable().serde().debug().flags("vector plain strings"));
+        v.visit(e.ordered().cloneable().serde().debug().flags("vector plain strings"));
     }
     {
         type S = VecRegion<u8>;
@@ -599,7 +615,7 @@ pub fn visit_all<Vz: Visitor>(v: &mut Vz) {
         let e = Entry::<S>::new(bytes_all()).large(bytes_large());
         let e = slice_forms!(e, S, R, u8);
         let e = slice_rforms!(e, S, R, u8);
-        v.visit(e.cloneable().serde().debug().flags("vector plain"));
+        v.visit(e.ordered().cloneable().serde().debug().flags("vector plain"));
     }
     {
         type S = Slice<Str<Owned<u8>>, Vec<(usize, usize)>>;
@@ -610,7 +626,7 @@ pub fn visit_all<Vz: Visitor>(v: &mut Vz) {
         v.visit(
             e.form("Vec<&str>", f::vec_of_str::<R>)
                 .form("&[&str]", f::slice_of_str::<R>)
-                .cloneable()
+                .ordered().cloneable()
                 .serde()
                 .debug()
                 .flags("vector plain strings"),
@@ -626,7 +642,7 @@ pub fn visit_all<Vz: Visitor>(v: &mut Vz) {
             v.visit(
                 e.form("Vec<&str>", f::vec_of_str::<R>)
                     .form("&[&str]", f::slice_of_str::<R>)
-                    .cloneable()
+                    .ordered().cloneable()
                     .serde()
                     .debug()
                     .flags("plain strings"),
@@ -651,7 +667,7 @@ pub fn visit_all<Vz: Visitor>(v: &mut Vz) {
                 .form("Vec<&str>", f::vec_of_str::<R>)
                 .form("ReadSlice (region-backed)", f::read_item::<S>)
                 .form("ReadSlice (borrowed from owned)", f::borrowed_item::<S>)
-                .cloneable()
+                .ordered().cloneable()
                 .serde()
                 .debug()
                 .flags("collapse plain strings"),
@@ -664,7 +680,7 @@ pub fn visit_all<Vz: Visitor>(v: &mut Vz) {
         let e = Entry::<S>::new(vals).large(vec![vec![(0..300).map(|i| i as u8).collect(), vec![], vec![9]]]);
         let e = slice_forms!(e, S, R, Vec<u8>);
         let e = slice_rforms!(e, S, R, Vec<u8>);
-        v.visit(e.cloneable().serde().debug().flags("vector plain"));
+        v.visit(e.ordered().cloneable().serde().debug().flags("vector plain"));
     }
     {
         type S = Slice<Opt<Str<Owned<u8>>>, Vec<Option<(usize, usize)>>>;
@@ -674,7 +690,7 @@ pub fn visit_all<Vz: Visitor>(v: &mut Vz) {
         let e = Entry::<S>::new(vals);
         let e = slice_forms!(e, S, R, Option<String>);
         let e = slice_rforms!(e, S, R, Option<String>);
-        v.visit(e.cloneable().serde().debug().flags("vector plain strings"));
+        v.visit(e.ordered().cloneable().serde().debug().flags("vector plain strings"));
     }
     {
         type S = Slice<Tup2<Mirror<u64>, Str<Owned<u8>>>, Vec<(u64, (usize, usize))>>;
@@ -684,7 +700,7 @@ pub fn visit_all<Vz: Visitor>(v: &mut Vz) {
         let e = Entry::<S>::new(vals);
         let e = slice_forms!(e, S, R, (u64, String));
         let e = slice_rforms!(e, S, R, (u64, String));
-        v.visit(e.cloneable().serde().debug().flags("vector plain strings"));
+        v.visit(e.ordered().cloneable().serde().debug().flags("vector plain strings"));
     }
     {
         // the inner region accepts `&Vec<u8>` / `&[u8; N]`, so the outer one accepts slices of vectors
@@ -698,7 +714,7 @@ pub fn visit_all<Vz: Visitor>(v: &mut Vz) {
                 .form("&[X]", f::slice::<R, Vec<u8>>)
                 .form("ReadSlice (region-backed)", f::read_item::<S>)
                 .form("ReadSlice (borrowed from owned)", f::borrowed_item::<S>)
-                .cloneable()
+                .ordered().cloneable()
                 .flags("huffman noheap noreserve"),
         );
     }
@@ -826,7 +842,7 @@ pub fn visit_all<Vz: Visitor>(v: &mut Vz) {
                 .form("&[B; N]", f::ref_array::<R, u8>)
                 .form("Wrapped (from a raw container)", f::read_item::<S>)
                 .form("Wrapped (borrowed from owned)", f::borrowed_item::<S>)
-                .cloneable()
+                .ordered().cloneable()
                 .render_with(|r| r.verif_fingerprint())
                 .flags("huffman noheap noreserve"),
         );
@@ -839,7 +855,7 @@ pub fn visit_all<Vz: Visitor>(v: &mut Vz) {
                 .form("Vec<B>", f::owned::<R, Vec<u16>>)
                 .form("&Vec<B>", f::by_ref::<R, Vec<u16>>)
                 .form("&[B]", f::slice::<R, u16>)
-                .cloneable()
+                .ordered().cloneable()
                 .render_with(|r| r.verif_fingerprint())
                 .flags("huffman noheap noreserve"),
         );
